@@ -420,9 +420,9 @@ func (vc *VC) havocAll(st *State, keepRoots []Term) {
 	st.parents = nil
 	for name, prev := range old {
 		sort := prev.Sort
-		if strings.HasPrefix(name, "L_") || name == "W_wakes" {
-			// engine-local ghost (iterators etc.) is never affected by calls; W_wakes counts the wake-ups made by
-			// THIS function, which a callee cannot take back
+		if strings.HasPrefix(name, "L_") || name == "W_wakes" || name == "W_lockheld" || name == "W_lockcnt" {
+			// engine-local ghost (iterators etc.) is never affected by calls; W_wakes / W_lockheld / W_lockcnt
+			// record what THIS function did (wake-ups made, mutexes acquired), which a callee cannot take back
 			st.mem[name] = prev
 			continue
 		}
